@@ -100,7 +100,8 @@ def check_session(inst, side, pw, ids, x, acc, all_elements, clone):
     R = inst.ref
     F = fam(inst)
     w = R.pw_scalar(pw)
-    menu = C.inbound_menu(inst, side, w, x, all_elements)
+    xo, own = C.session_facts(inst, side, pw, ids, x)
+    menu = C.inbound_menu(inst, side, w, xo, all_elements, own=own)
     desc = {"inst": inst.desc, "side": side, "pw": pw, "ids": list(ids), "x": x}
     # never-crashed twin
     twin = {}
